@@ -1177,7 +1177,7 @@ func TestCheck(t *testing.T) {
 
 	// several relays alive at once in one process, used in an interleaved way
 	// (whatever a relay keeps between calls - copy buffers - must be its own)
-	for g := 0; g < r.Pick(10, 150); g++ {
+	for g := 0; g < r.Pick(15, 180); g++ {
 		g := g
 		r.Case(fmt.Sprintf("relays-interleaved/%03d", g), func(c *Case) {
 			func() {
@@ -1199,9 +1199,18 @@ func TestCheck(t *testing.T) {
 						c.Go(func() { close(d) }, func() { copyLoop(a1, b1) })
 						links = append(links, Link{Name: fmt.Sprintf("relay%d", k), A: a2, B: b2})
 					}
-					Interleave(c, r, "relay/several-relays", links, r.Sub("relays", g))
-					for _, e := range ends {
-						e.Close()
+					if g%3 == 2 {
+						// the same relays on all processors at once instead
+						wait := Parallel(c, r, "relay/several-relays-in-parallel", links, []int{40000, 300000}[g/3%2], []int{6000, 70000}[g/6%2], r.Sub("relays", g))
+						for _, e := range ends {
+							e.Close()
+						}
+						wait()
+					} else {
+						Interleave(c, r, "relay/several-relays", links, r.Sub("relays", g))
+						for _, e := range ends {
+							e.Close()
+						}
 					}
 					for _, d := range done {
 						<-d
